@@ -252,9 +252,12 @@ def main():
         "not_applicable": [
             {"property_id": pid, "reason": na.get(pid, DEFAULT_NA)} for pid in ALL if pid not in CLAIMS
         ],
-        "notes": "All checks are solver-based (Kani/CBMC). Exit 2 = inconclusive (timeout / OOM / vacuous / counterexample not "
-                 "reproduced natively) and is never reported as a pass or as a violation. Bounds and what lies outside them are "
-                 "in each evidence file (coverage.bounds) and in DESIGN.md.",
+        "notes": "All checks are solver-based (Kani/CBMC). A harness that hits the time or memory cap is listed as not explored "
+                 "(stdout INCONCLUSIVE line, evidence coverage.inconclusive) and is never counted as held; the run still exits 0 "
+                 "unless more than max(2, a fifth of the tier) harnesses are lost that way. Exit 2 = the machinery needs attention "
+                 "(vacuous harness, unwinding bound too small, engine error, counterexample not reproduced natively, nothing "
+                 "decided); it is never reported as a pass or as a violation. Bounds and what lies outside them are in each "
+                 "evidence file (coverage.bounds) and in DESIGN.md.",
     }
     json.dump(m, open(os.path.join(VERIF, "MANIFEST.json"), "w"), indent=1)
     print("MANIFEST.json: %d checks, %d not applicable" % (len(checks), len(m["not_applicable"])))
